@@ -300,7 +300,8 @@ theorem reseed_keeps_flag (b : Bool) (collapse suppress : Bool) (tgt : Nat) (t :
     (reseedAt (some b) collapse suppress tgt t).2 = some b := by
   cases b <;> simp [reseedAt, cleanup, unrootedFlag]
 
-/-- soft: an undefined flag stays undefined or becomes unrooted (exactly when a basal node is dissolved) -/
+/-- soft: an undefined flag stays undefined or becomes unrooted (the model sets it to unrooted when a basal node is
+    dissolved; WHEN that happens is not part of this statement) -/
 theorem reseed_flag_undefined (collapse suppress : Bool) (tgt : Nat) (t : T) :
     (reseedAt none collapse suppress tgt t).2 = none ∨ (reseedAt none collapse suppress tgt t).2 = some false := by
   simp only [reseedAt]
@@ -1120,7 +1121,9 @@ structure Keeps (t r : T) : Prop where
 /-- **`reseed_at` keeps the leaves, the total length and every leaf-to-leaf path length for EVERY setting of
     `collapse_unrooted_basal_bifurcation` and `suppress_unifurcations` (the defaults included) and every rooting flag** —
     for every tree whose seed has at least two children, every internal target node, distinct leaf ids and well-formed
-    fractions (what the protocol parser produces).  Lengths are exact rationals, `None` counts as 0, merged lengths follow
+    fractions (`Frac.parse` only builds fractions through `mk'`/`ofInt`, which are well formed, and the harness numbers nodes
+    0..n-1; that every `parseTree` output satisfies `LenWF` and has distinct ids is NOT proved in this file — both are
+    hypotheses here).  Lengths are exact rationals, `None` counts as 0, merged lengths follow
     the library's `None` rules.  Leaf targets and unary seeds (outside `reseed_at`'s documented domain / where the old seed
     itself turns into a tip) are not covered. -/
 theorem reseed_invariant_full (flag : Option Bool) (collapse suppress : Bool) (tgt : Nat) (t : T)
@@ -1866,7 +1869,9 @@ theorem Keeps.trans {t u r : T} (h1 : Keeps t u) (h2 : Keeps u r) : Keeps t r :=
 
 /-- **`reroot_at_edge(edge, length1, length2)` with `length1 + length2` = the edge's length keeps the leaves, the total
     length and every leaf-to-leaf path length**, for both `suppress_unifurcations` settings — every tree with distinct node
-    ids, a seed with at least two children and well-formed fractions; `nw` (the id of the inserted node) fresh. -/
+    ids, a seed with at least two children and well-formed fractions; `nw` (the id of the inserted node) fresh.
+    (When no node has id `h`, or `h` is the seed, `splitEdge` changes nothing, `nw` does not occur and the statement reduces to
+    the invariance of the clean-up; the driver refuses such inputs with `bad-target`.) -/
 theorem reroot_at_edge_invariant (s : Bool) (h nw : Nat) (l1 l2 : Option Frac) (t : T)
     (hids : (idsOf t).Nodup) (hfresh : nw ∉ idsOf t) (h2 : 2 ≤ t.cs.length) (hwf : LenWF t) (hl1 : OWF l1) (hl2 : OWF l2)
     (hsum : ∀ c ∈ t.nodes, c.id = h → lenQ l1 + lenQ l2 = lenQ c.len) :
@@ -1885,8 +1890,11 @@ theorem reroot_at_edge_invariant (s : Bool) (h nw : Nat) (l1 l2 : Option Frac) (
 
 /-- **clause (c): after `reroot_at_edge(edge, length1, length2)` (no suppression) the root is the inserted node, its two
     children are the old head with edge length `length2` and, last, the old tail with edge length `length1`** — for ANY two
-    lengths, every tree, every edge whose head has a parent; `nw` fresh. -/
-theorem reroot_at_edge_position (h nw : Nat) (l1 l2 : Option Frac) (t : T) (p : Nat)
+    lengths, every tree, every edge whose head has a parent; `nw` fresh.
+    `_partial`: stated for `suppress_unifurcations=False` only (the library default is True: then a tail left with one child is
+    spliced out and its edge merged, so this shape claim does not lift; the root-distance form that survives suppression is
+    not proved — the oracle checks it on every generated case). -/
+theorem reroot_at_edge_position_partial (h nw : Nat) (l1 l2 : Option Frac) (t : T) (p : Nat)
     (hfresh : nw ∉ idsOf t) (hpar : parentOf h t = some p) :
     (rerootAtEdge false h nw l1 l2 t).1.id = nw ∧
     ∃ c ∈ t.nodes, c.id = h ∧ ∃ up, (rerootAtEdge false h nw l1 l2 t).1.cs = [c.withLen l2, up] ∧ up.len = l1 := by
@@ -1982,4 +1990,409 @@ theorem reroot_at_midpoint_invariant_partial (s : Bool) (a b nw : Nat) (t : T) (
       exact reroot_at_edge_invariant s hd nw (some (lenOr0 hn.len - x)) (some x) t hids hfresh h2 hwf
         (fun f hf => by cases hf; exact Frac.sub_wf _ _) (fun f hf => by cases hf; exact hx) hsum
 
+end DendroModel.C07
+
+namespace DendroModel.C07
+open DendroModel DendroModel.C07.Aux DendroModel.C07.Path
+
+/-- **`randomly_reorient` keeps the leaves, the total length and every leaf-to-leaf path length**, whichever node and
+    shuffles the rng produced, every rooting flag — every tree with distinct node ids, a seed with at least two children and
+    well-formed fractions.  (Both branches: a leaf pick goes through `to_outgroup_position`, any other through `reseed_at`
+    with the default clean-up; then `randomly_rotate`.) -/
+theorem reorient_invariant (flag : Option Bool) (pick : Nat) (rank : Nat → Nat) (t : T) (r : T × Option Bool)
+    (h : reorient flag pick rank t = some r)
+    (hids : (idsOf t).Nodup) (h2 : 2 ≤ t.cs.length) (hwf : LenWF t) : Keeps t r.1 := by
+  have hnd : (leafIds t).Nodup := leafIds_nodup_of_ids hids
+  unfold reorient at h
+  split at h
+  · cases h
+  · rename_i n hfind
+    obtain ⟨hnmem, hnid⟩ := find_mem pick t n hfind
+    split at h
+    · cases ho : toOutgroup flag true pick t with
+      | none => simp [ho] at h
+      | some q =>
+        simp only [ho, Option.map_some, Option.some.injEq] at h
+        subst h
+        have K1 := to_outgroup_invariant flag true pick t q ho hids h2 hwf
+        exact K1.trans (rotate_invariant rank q.1 (K1.ids.nodup_iff.mpr hnd))
+    · rename_i hcond
+      simp only [Option.some.injEq] at h
+      subst h
+      have hint : ∀ m ∈ t.nodes, m.id = pick → m.cs ≠ [] := by
+        by_cases hne : n.cs = []
+        · have hp : pick = t.id := by
+            by_contra hp
+            apply hcond
+            simp [hne, hp]
+          have htne : t.cs ≠ [] := by intro e; rw [e] at h2; simp at h2
+          exact hint_of_ids hids (mem_nodes_self t) hp.symm htne
+        · exact hint_of_ids hids hnmem hnid hne
+      have K1 := reseed_invariant_full flag true true pick t hint h2 hwf hnd
+      exact K1.trans (rotate_invariant rank _ (K1.ids.nodup_iff.mpr hnd))
+
+example : ∃ r, reorient (some false) 4 (fun i => 3 - i) exTree = some r ∧ (idsOf exTree).Nodup ∧ 2 ≤ exTree.cs.length :=
+  ⟨_, rfl, by decide, by decide⟩
+example : ∃ r, reorient (some false) 1 (fun i => i) exTree = some r := ⟨_, rfl⟩
+
+end DendroModel.C07
+
+namespace DendroModel.C07.Aux
+open DendroModel DendroModel.C07 DendroModel.C07.Path
+
+theorem midWalk_node_mem : ∀ (w : List (Nat × Frac × Nat)) (plen : Frac) (p : Nat),
+    midWalk w plen = .onNode p → ∃ e ∈ w, e.2.2 = p
+  | [], _, _, h => by simp [midWalk] at h
+  | (n0, l, par) :: rest, plen, p, h => by
+    simp only [midWalk] at h
+    split at h
+    · cases h
+    · split at h
+      · obtain ⟨e, he, hp⟩ := midWalk_node_mem rest _ p h
+        exact ⟨e, List.mem_cons_of_mem _ he, hp⟩
+      · cases h; exact ⟨_, List.mem_cons_self .., rfl⟩
+
+theorem zip_parents : ∀ (p : List (Nat × Option Frac)) (m : Nat) (x : Nat × Option Frac) (par : Nat),
+    (x, par) ∈ p.zip (m :: p.map (·.1)) → par = m ∨ par ∈ (p.map (·.1)).dropLast
+  | [], _, _, _, h => by simp at h
+  | e :: p', m, x, par, h => by
+    simp only [List.map_cons, List.zip_cons_cons, List.mem_cons, Prod.mk.injEq] at h
+    rcases h with ⟨_, rfl⟩ | h
+    · exact Or.inl rfl
+    · right
+      have hne : p' ≠ [] := by intro e0; subst e0; simp at h
+      have : (e.1 :: p'.map (·.1)).dropLast = e.1 :: (p'.map (·.1)).dropLast := by
+        cases p' with
+        | nil => exact absurd rfl hne
+        | cons a as => simp
+      rw [List.map_cons, this]
+      rcases zip_parents p' e.1 x par h with rfl | h'
+      · exact List.mem_cons_self ..
+      · exact List.mem_cons_of_mem _ h'
+
+theorem upList_par {m : Nat} {q : List (Nat × Option Frac)} {e : Nat × Frac × Nat} (h : e ∈ upList m q) :
+    q ≠ [] ∧ (e.2.2 = m ∨ e.2.2 ∈ (q.map (·.1)).dropLast) := by
+  simp only [upList, List.mem_reverse, List.mem_map] at h
+  obtain ⟨⟨x, par⟩, hz, rfl⟩ := h
+  refine ⟨by intro e0; subst e0; simp at hz, ?_⟩
+  exact zip_parents q m x par hz
+
+def Internal (t : T) (i : Nat) : Prop := ∃ m ∈ t.nodes, m.id = i ∧ m.cs ≠ []
+
+mutual
+theorem rootPath_internal (x : Nat) : ∀ (t : T) (p : List (Nat × Option Frac)), rootPath x t = some p →
+    p ≠ [] ∧ ∀ i ∈ (p.map (·.1)).dropLast, Internal t i
+  | .node j y l s cs, p, h => by
+    simp only [rootPath] at h
+    split at h
+    · cases h; exact ⟨by simp, by simp⟩
+    · split at h
+      · rename_i p' hp'
+        cases h
+        obtain ⟨hne, hin⟩ := rootPathL_internal x cs p' hp'
+        refine ⟨by simp, ?_⟩
+        intro i hi
+        have : ((j :: p'.map (·.1))).dropLast = j :: (p'.map (·.1)).dropLast := by
+          cases p' with
+          | nil => exact absurd rfl hne
+          | cons a as => simp
+        simp only [List.map_cons] at hi
+        rw [this] at hi
+        rcases List.mem_cons.mp hi with rfl | hi
+        · refine ⟨.node i y l s cs, mem_nodes_self _, rfl, ?_⟩
+          intro e0; simp only [T.cs] at e0; subst e0; simp [rootPathL] at hp'
+        · obtain ⟨m, hm, h1, h2⟩ := hin i hi
+          exact ⟨m, by simp only [T.nodes]; exact List.mem_cons_of_mem _ hm, h1, h2⟩
+      · cases h
+theorem rootPathL_internal (x : Nat) : ∀ (cs : List T) (p : List (Nat × Option Frac)), rootPathL x cs = some p →
+    p ≠ [] ∧ ∀ i ∈ (p.map (·.1)).dropLast, ∃ m ∈ T.nodesL cs, m.id = i ∧ m.cs ≠ []
+  | [], _, h => by simp [rootPathL] at h
+  | c :: cs, p, h => by
+    simp only [rootPathL] at h
+    split at h
+    · rename_i p' hp'
+      cases h
+      obtain ⟨hne, hin⟩ := rootPath_internal x c p hp'
+      refine ⟨hne, fun i hi => ?_⟩
+      obtain ⟨m, hm, h1, h2⟩ := hin i hi
+      exact ⟨m, by simp only [T.nodesL]; exact List.mem_append_left _ hm, h1, h2⟩
+    · obtain ⟨hne, hin⟩ := rootPathL_internal x cs p h
+      refine ⟨hne, fun i hi => ?_⟩
+      obtain ⟨m, hm, h1, h2⟩ := hin i hi
+      exact ⟨m, by simp only [T.nodesL]; exact List.mem_append_right _ hm, h1, h2⟩
+end
+
+theorem dropCommon_spec : ∀ (p q : List (Nat × Option Frac)) (m0 : Nat),
+    ∃ pre, p = pre ++ (dropCommon m0 p q).2.1 ∧ ((dropCommon m0 p q).1 = m0 ∨ (dropCommon m0 p q).1 ∈ pre.map (·.1))
+  | [], q, m0 => ⟨[], by simp [dropCommon], Or.inl (by simp [dropCommon])⟩
+  | (i, l) :: p, [], m0 => ⟨[], by simp [dropCommon], Or.inl (by simp [dropCommon])⟩
+  | (i, l) :: p, (j, k) :: q, m0 => by
+    by_cases hij : (i == j) = true
+    · obtain ⟨pre, h1, h2⟩ := dropCommon_spec p q i
+      refine ⟨(i, l) :: pre, ?_, ?_⟩
+      · simp only [dropCommon, hij, if_true, List.cons_append]; rw [← h1]
+      · simp only [dropCommon, hij, if_true, List.map_cons]
+        right
+        rcases h2 with h2 | h2
+        · rw [h2]; exact List.mem_cons_self ..
+        · exact List.mem_cons_of_mem _ h2
+    · refine ⟨[], ?_, Or.inl ?_⟩ <;> simp [dropCommon, hij]
+
+end DendroModel.C07.Aux
+
+namespace DendroModel.C07.Aux
+open DendroModel DendroModel.C07 DendroModel.C07.Path
+
+theorem walk_node_internal (t : T) (x : Nat) (p q : List (Nat × Option Frac)) (m : Nat) (q1 q2 : List (Nat × Option Frac))
+    (plen : Frac) (nd : Nat) (hp : rootPath x t = some p) (hdc : dropCommon t.id p q = (m, q1, q2)) (h2 : t.cs ≠ [])
+    (h : midWalk (upList m q1) plen = .onNode nd) : Internal t nd := by
+  obtain ⟨e, he, hnd⟩ := midWalk_node_mem _ _ _ h
+  obtain ⟨hq1, hpar⟩ := upList_par he
+  obtain ⟨_, hin⟩ := rootPath_internal x t p hp
+  obtain ⟨pre, hpre, hm⟩ := dropCommon_spec p q t.id
+  rw [hdc] at hpre hm
+  simp only at hpre hm
+  have hdl : (p.map (·.1)).dropLast = pre.map (·.1) ++ (q1.map (·.1)).dropLast := by
+    rw [hpre, List.map_append, List.dropLast_append_of_ne_nil (by simpa using hq1)]
+  have hroot : Internal t t.id := ⟨t, mem_nodes_self t, rfl, h2⟩
+  rw [← hnd]
+  rcases hpar with hpar | hpar
+  · rw [hpar]
+    rcases hm with hm | hm
+    · rw [hm]; exact hroot
+    · exact hin m (by rw [hdl]; exact List.mem_append_left _ hm)
+  · exact hin _ (by rw [hdl]; exact List.mem_append_right _ hpar)
+
+theorem midpointOf_node_internal (a b : Nat) (t : T) (nd : Nat) (h2 : t.cs ≠ []) (h : midpointOf a b t = .onNode nd) :
+    Internal t nd := by
+  unfold midpointOf at h
+  split at h
+  · cases h
+  · dsimp only at h
+    split at h
+    · rename_i p0 p1 hp0 hp1
+      split at h
+      · exact walk_node_internal t _ p1 p0 _ _ _ _ nd hp1 rfl h2 h
+      · exact walk_node_internal t _ p0 p1 _ _ _ _ nd hp0 rfl h2 h
+    · cases h
+
+end DendroModel.C07.Aux
+
+namespace DendroModel.C07
+open DendroModel DendroModel.C07.Aux DendroModel.C07.Path
+
+/-- **`reroot_at_midpoint` keeps the leaves, the total length and every leaf-to-leaf path length** — both branches (midpoint
+    inside an edge, midpoint exactly on a node), both `suppress_unifurcations` settings, whichever pair of leaves it was
+    handed; every tree with distinct node ids, a seed with at least two children, well-formed fractions; `nw` fresh.
+    No assumption about the walk is left: the node it returns is shown to be internal (`midpointOf_node_internal`). -/
+theorem reroot_at_midpoint_invariant (s : Bool) (a b nw : Nat) (t : T) (r : T × Option Bool)
+    (h : rerootAtMidpoint s a b nw t = some r)
+    (hids : (idsOf t).Nodup) (hfresh : nw ∉ idsOf t) (h2 : 2 ≤ t.cs.length) (hwf : LenWF t) : Keeps t r.1 :=
+  reroot_at_midpoint_invariant_partial s a b nw t r h hids hfresh h2 hwf
+    (fun nd hnd => midpointOf_node_internal a b t nd (by intro e; rw [e] at h2; simp at h2) hnd)
+
+/-- unit-length `((A,B),C')` with the long edge to C: the midpoint of A–C falls inside C's edge -/
+example : ∃ r, rerootAtMidpoint true 2 4 5 exTree = some r ∧ (idsOf exTree).Nodup ∧ 5 ∉ idsOf exTree := ⟨_, rfl, by decide, by decide⟩
+/-- `((A:1,B:1):1,(C:1,D:1):1)`: the midpoint of A–C is exactly the seed (the on-node branch) -/
+example : midpointOf 2 5 (.node 0 none none none
+    [.node 1 none (some ⟨1, 1⟩) none [.node 2 (some 0) (some ⟨1, 1⟩) none [], .node 3 (some 1) (some ⟨1, 1⟩) none []],
+     .node 4 none (some ⟨1, 1⟩) none [.node 5 (some 2) (some ⟨1, 1⟩) none [], .node 6 (some 3) (some ⟨1, 1⟩) none []]])
+    = .onNode 0 := by decide
+
+end DendroModel.C07
+
+namespace DendroModel.C07.Aux
+open DendroModel DendroModel.C07 DendroModel.C07.Path
+
+mutual
+theorem dist_isSome : ∀ (t : LT) (a b : Nat), a ≠ b → a ∈ leaves t → b ∈ leaves t → (Path.dist t a b).isSome
+  | .leaf i l, a, b, hab, ha, hb => by
+    simp only [Path.leaves, List.mem_singleton] at ha hb
+    exact absurd (ha.trans hb.symm) hab
+  | .node l cs, a, b, hab, ha, hb => by
+    simp only [Path.leaves] at ha hb
+    simp only [Path.dist]
+    exact distL_isSome cs a b hab ha hb
+theorem distL_isSome : ∀ (cs : List LT) (a b : Nat), a ≠ b → a ∈ leavesL cs → b ∈ leavesL cs → (distL cs a b).isSome
+  | [], _, _, _, ha, _ => by simp [leavesL] at ha
+  | c :: cs, a, b, hab, ha, hb => by
+    simp only [leavesL, List.mem_append] at ha hb
+    rw [distL_cons]
+    cases hda : down c a with
+    | some x =>
+      have hac : a ∈ leaves c := mem_of_down_some hda
+      cases hdb : down c b with
+      | some y => exact dist_isSome c a b hab hac (mem_of_down_some hdb)
+      | none =>
+        have hbc : b ∉ leaves c := fun hm => by
+          have := (down_some_iff c b).mpr hm; simp [hdb] at this
+        have hb' : b ∈ leavesL cs := hb.resolve_left hbc
+        obtain ⟨y, hy⟩ := get_down hb'
+        simp [hy]
+    | none =>
+      have hac : a ∉ leaves c := fun hm => by
+        have := (down_some_iff c a).mpr hm; simp [hda] at this
+      have ha' : a ∈ leavesL cs := ha.resolve_left hac
+      cases hdb : down c b with
+      | some y =>
+        obtain ⟨x, hx⟩ := get_down ha'
+        simp [hx]
+      | none =>
+        have hbc : b ∉ leaves c := fun hm => by
+          have := (down_some_iff c b).mpr hm; simp [hdb] at this
+        exact distL_isSome cs a b hab ha' (hb.resolve_left hbc)
+end
+
+end DendroModel.C07.Aux
+
+namespace DendroModel.C07
+open DendroModel DendroModel.C07.Aux DendroModel.C07.Path
+
+/-- the path length between two DIFFERENT leaves is defined (so the `paths` clause of `Keeps` is an equation between
+    numbers, not `none = none`, for every pair of distinct leaves; for `a = b` both sides are `none`) -/
+theorem pathLen_defined (t : T) (a b : Nat) (hab : a ≠ b) (ha : a ∈ leafIds t) (hb : b ∈ leafIds t) :
+    (pathLen t a b).isSome := by
+  rw [pathLen_eq_dist]
+  rw [leafIds_eq_leaves] at ha hb
+  exact dist_isSome _ a b hab ha hb
+
+example : (pathLen exTree 2 4).isSome := pathLen_defined exTree 2 4 (by decide) (by decide) (by decide)
+
+end DendroModel.C07
+
+namespace DendroModel.C07.Aux
+open DendroModel DendroModel.C07 DendroModel.C07.Path
+
+theorem sup_root_of_two (i : Nat) (x : Option Nat) (l : Option Frac) (s : Option String) (c d : T) (cs : List T) :
+    sup (.node i x l s (c :: d :: cs)) = .node i x l s (sup c :: sup d :: supL cs) := by
+  rw [sup]; simp only [supL]
+
+theorem leafIds_sup (t : T) (hwf : LenWF t) : leafIds (sup t) = leafIds t := by
+  rw [leafIds_eq_leaves, (sup_inv t hwf).leaves, ← leafIds_eq_leaves]
+
+theorem leafIds_withLen (c : T) (m : Option Frac) : leafIds (c.withLen m) = leafIds c := by
+  rw [leafIds_eq_leaves, leaves_withLen, ← leafIds_eq_leaves]
+
+theorem reach_two {t r : T} (h : Reach t r) (h2 : 2 ≤ t.cs.length) : 2 ≤ r.cs.length := by
+  induction h with
+  | refl _ => exact h2
+  | step st _ ih =>
+    apply ih
+    cases st with
+    | mk i x l s pre j y lc sc ds post hds hrest =>
+      simp only [T.cs, List.length_append, List.length_singleton]
+      have : 0 < ds.length := List.length_pos_of_ne_nil hds
+      omega
+
+/-- the first root child keeps its leaves through the clean-up of `to_outgroup_position` -/
+theorem first_after_cleanup (i : Nat) (x : Option Nat) (l : Option Frac) (s : Option String) (o : T) (rest : List T)
+    (uf sup? : Bool) (hrest : rest ≠ []) (hwf : LenWF (.node i x l s (o :: rest)))
+    (hnd : (leafIds (.node i x l s (o :: rest))).Nodup) :
+    ∃ first more, (if sup? then sup (if sisterCollapses uf (o :: rest) then collapseBasal (.node i x l s (o :: rest))
+        else .node i x l s (o :: rest)) else (if sisterCollapses uf (o :: rest) then collapseBasal (.node i x l s (o :: rest))
+        else .node i x l s (o :: rest))).cs = first :: more ∧ leafIds first = leafIds o := by
+  -- step 1: the tree before suppression
+  have step1 : ∃ o' d ds, (if sisterCollapses uf (o :: rest) then collapseBasal (.node i x l s (o :: rest))
+        else .node i x l s (o :: rest)) = .node i x l s (o' :: d :: ds) ∧ leafIds o' = leafIds o ∧
+        LenWF (.node i x l s (o' :: d :: ds)) := by
+    by_cases hd : sisterCollapses uf (o :: rest) = true
+    · simp only [hd, if_true]
+      have W := (collapse_inv _ hwf hnd).wf
+      match rest, hd, W with
+      | [b], hd, W =>
+        cases b with
+        | node j y lb sb bs =>
+        simp only [sisterCollapses, Bool.and_eq_true, decide_eq_true_eq, cs_node] at hd
+        have hb2 : 2 ≤ bs.length := by simpa using hd.2
+        match bs, hb2, W with
+        | b1 :: b2 :: bs', hb2, W =>
+          have e : collapseBasal (.node i x l s [o, .node j y lb sb (b1 :: b2 :: bs')]) =
+              .node i x l s (o.withLen (mergeLen o.len lb) :: b1 :: b2 :: bs') := by
+            simp [collapseBasal, T.cs, T.len]
+          rw [e] at W ⊢
+          exact ⟨_, _, _, rfl, leafIds_withLen _ _, W⟩
+      | [], hd, _ => simp [sisterCollapses] at hd
+      | _ :: _ :: _, hd, _ => simp [sisterCollapses] at hd
+    · simp only [hd]
+      match rest, hrest with
+      | d :: ds, _ => exact ⟨o, d, ds, by simp, rfl, hwf⟩
+  obtain ⟨o', d, ds, e, hl, W⟩ := step1
+  rw [e]
+  cases sup?
+  · exact ⟨o', d :: ds, rfl, hl⟩
+  · simp only [if_true]
+    rw [sup_root_of_two]
+    exact ⟨sup o', _, rfl, by rw [leafIds_sup o' (lenWF_child W (List.mem_cons_self ..)), hl]⟩
+
+end DendroModel.C07.Aux
+
+namespace DendroModel.C07
+open DendroModel DendroModel.C07.Aux DendroModel.C07.Path
+
+/-- **clause (d) with the default `suppress_unifurcations=True`** (and without): after `to_outgroup_position` the FIRST child
+    of the root spans exactly the leaves of the outgroup, for every rooting flag — `o` is the child with id `og` of the tree
+    re-seeded at the outgroup's parent (with suppression a unary outgroup node may be replaced by its descendant in the same
+    position, hence the leaf-set form).  Distinct node ids, seed with ≥ 2 children, well-formed fractions.
+    `_partial`: `o` is identified as a root child of `invertTo p t`; that this is the untouched subtree of `t` whose root has
+    id `og` (the inversions only touch the path to `p`) is not proved here. -/
+theorem outgroup_first_leafset_partial (flag : Option Bool) (suppress : Bool) (og : Nat) (t : T) (r : T × Option Bool)
+    (h : toOutgroup flag suppress og t = some r) (hids : (idsOf t).Nodup) (h2 : 2 ≤ t.cs.length) (hwf : LenWF t) :
+    ∃ p o, parentOf og t = some p ∧ o ∈ (invertTo p t).cs ∧ o.id = og ∧
+      ∃ first rest, r.1.cs = first :: rest ∧ leafIds first = leafIds o := by
+  have hnd : (leafIds t).Nodup := leafIds_nodup_of_ids hids
+  unfold toOutgroup at h
+  split at h
+  · cases h
+  · rename_i p hp
+    obtain ⟨m, hm, hmp, hmne⟩ := parentOf_spec og t p hp
+    have hr := invert_is_chain p t (hint_of_ids hids hm hmp hmne) h2
+    obtain ⟨pl, _, _⟩ := reach_inv hr
+    have pid : (leafIds (invertTo p t)).Perm (leafIds t) := pl.map T.id
+    have hids2 : (idsOf (invertTo p t)).Nodup := (reach_ids hr).nodup_iff.mpr hids
+    have hwf2 := reach_lenWF hr hwf
+    have hnd2 : (leafIds (invertTo p t)).Nodup := pid.nodup_iff.mpr hnd
+    have hlen2 : 2 ≤ (invertTo p t).cs.length := reach_two hr h2
+    split at h
+    rename_i i x l s cs heq
+    rw [heq] at hids2 hwf2 hnd2 hlen2
+    split at h
+    · cases h
+    · rename_i o ho
+      cases h
+      have hoid : o.id = og := by simpa using List.find?_some ho
+      have hom : o ∈ cs := List.mem_of_find?_eq_some ho
+      refine ⟨p, o, hp, by rw [heq]; exact hom, hoid, ?_⟩
+      have hchild : (cs.map T.id).Nodup := by
+        rw [idsOf_node] at hids2
+        exact (childIds_sublist cs).nodup (List.nodup_cons.mp hids2).2
+      have P := front_perm og cs o hchild ho
+      have hcs : cs ≠ [] := by intro e; subst e; simp at ho
+      have hrest : cs.filter (fun c => c.id != og) ≠ [] := by
+        intro e
+        have := P.length_eq
+        rw [e] at this
+        simp only [T.cs] at hlen2
+        simp at this; omega
+      have hl2 : leafIds (T.node i x l s (o :: cs.filter (fun c => c.id != og))) =
+          leavesL (toLTL (o :: cs.filter (fun c => c.id != og))) := leafIds_eq_LT _ (by simp [T.cs])
+      have hl1 : leafIds (T.node i x l s cs) = leavesL (toLTL cs) := leafIds_eq_LT _ (by simpa [T.cs] using hcs)
+      have hnd3 : (leafIds (T.node i x l s (o :: cs.filter (fun c => c.id != og)))).Nodup := by
+        rw [hl2]; rw [hl1] at hnd2
+        exact (leavesL_perm_LT (toLTL_perm P)).nodup_iff.mpr hnd2
+      have hwf3 : LenWF (T.node i x l s (o :: cs.filter (fun c => c.id != og))) := by
+        intro n hn f hf
+        simp only [T.nodes, List.mem_cons] at hn
+        rcases hn with rfl | hn
+        · exact hwf2 (T.node i x l s cs) (mem_nodes_self _) f (by simpa [T.len] using hf)
+        · obtain ⟨c, hc, hnc⟩ := mem_nodesL.mp hn
+          exact hwf2 n (by simp only [T.nodes]; exact List.mem_cons_of_mem _ (mem_nodesL.mpr ⟨c, P.mem_iff.mp hc, hnc⟩)) f hf
+      exact first_after_cleanup i x l s o _ (unrootedFlag flag) suppress hrest hwf3 hnd3
+
+end DendroModel.C07
+
+namespace DendroModel.C07
+open DendroModel DendroModel.C07.Aux
+/-- default suppression, unrooted flag, outgroup = leaf C of `exTree`: the hypotheses hold and the call succeeds -/
+example : ∃ r, toOutgroup (some false) true 4 exTree = some r ∧ (idsOf exTree).Nodup ∧ 2 ≤ exTree.cs.length :=
+  ⟨_, rfl, by decide, by decide⟩
 end DendroModel.C07
